@@ -30,13 +30,16 @@ def to_scenario(sid, hist, npeers):
         if h["op"] == "day":
             d, k = d + 1, 1
             continue
-        k += 1
-        steps.append({"op": "tick", "d": d, "k": k})
         st = dict(h)
+        sim = st.pop("sim", False)
+        if not sim:
+            # (sim: the update carries the date of the update just made on another peer)
+            k += 1
+            steps.append({"op": "tick", "d": d, "k": k})
         st["room"] = "R1"
         if st["op"] in ("put", "move"):
             # (a mutation that only names another room changes nothing: a move also writes a field)
-            st["text"] = "t%d" % k
+            st["text"] = ("s%d" if sim else "t%d") % k
         steps.append(st)
     steps.append({"op": "tick", "d": d, "k": k + 1})
     steps.append({"op": "quiesce", "room": "R1", "max": 6})
